@@ -234,7 +234,11 @@ class Policy(object):
         if getattr(self, "log_literals", None) is not None and t.dom in getattr(self, "free_literal_doms", ()):
             self.log_literals.add(lit)
         elif lit not in self.allow_int_literals and not self.allow_offset_cmp:
-            raise Inconclusive("integer token %r compared with literal %r" % (t, lit), interp.where())
+            # `x >= 1` / `x < 1` on an unsigned token is the zero test in another spelling (e.g. the pattern `1..`)
+            zero_test = (lit == 1 and 0 in self.allow_int_literals and t.val + t.off >= 0
+                         and ((ta and op in ("Ge", "Lt")) or (not ta and op in ("Le", "Gt"))))
+            if not zero_test:
+                raise Inconclusive("integer token %r compared with literal %r" % (t, lit), interp.where())
         tv = t.val + t.off
         return (tv, lit) if ta else (lit, tv)
 
@@ -342,7 +346,24 @@ class Interp(object):
                 if elem[1] >= len(v.items):
                     raise Panic("index", self.where(), "index %d out of %d" % (elem[1], len(v.items)))
                 return v.items[elem[1]]
+            if isinstance(v, BytesV):
+                b = v.b if hasattr(v, "b") else v.v
+                if elem[1] >= len(b):
+                    raise Panic("index", self.where(), "index %d out of %d" % (elem[1], len(b)))
+                return b[elem[1]]
             raise Inconclusive("index into %r" % (v,), self.where())
+        if elem[0] == "ie":            # constant index counted from the end
+            if isinstance(v, ListV):
+                if elem[1] > len(v.items):
+                    raise Panic("index", self.where(), "index -%d out of %d" % (elem[1], len(v.items)))
+                return v.items[len(v.items) - elem[1]]
+            raise Inconclusive("index from the end into %r" % (v,), self.where())
+        if elem[0] == "sub":           # subslice pattern: a read-only view
+            if isinstance(v, ListV):
+                lo, to, from_end = elem[1], elem[2], elem[3]
+                hi = len(v.items) - to if from_end else to
+                return ListV(tuple(v.items[lo:hi]))
+            raise Inconclusive("subslice of %r" % (v,), self.where())
         raise Inconclusive("bad path element %r" % (elem,), self.where())
 
     def read(self, cell, path):
@@ -425,8 +446,11 @@ class Interp(object):
                 path = path + (("i", ix),)
             elif k == "cindex":
                 if pe[3]:
-                    raise Inconclusive("from_end index", self.where())
-                path = path + (("i", pe[1]),)
+                    path = path + (("ie", pe[1]),)
+                else:
+                    path = path + (("i", pe[1]),)
+            elif k == "subslice":
+                path = path + (("sub", pe[1], pe[2], pe[3]),)
             else:
                 raise Inconclusive("projection %s" % k, self.where())
         return cell, path
@@ -464,14 +488,34 @@ class Interp(object):
             if t.get("k") == "adt":
                 return Adt(t["adt"], 0, ())
             return UNIT
+        name = c.get("s")
+        if k == "other" and name in getattr(self.prog, "const_bodies", {}):
+            return self.const_item(name)
+        if k == "other" and name in getattr(self.prog, "consts", {}):
+            return self.prog.consts[name]
         raise Inconclusive("constant %s" % c.get("s"), self.where())
+
+    def const_item(self, name):
+        """value of an aggregate `const` item of the crate: its CTFE body is interpreted (memoised per interpreter)"""
+        cache = self.__dict__.setdefault("_const_items", {})
+        if name not in cache:
+            body = self.prog.const_bodies[name]
+            frame = [Cell() for _ in body["locals"]]
+            self.stack.append([name, 0, body["span"]])
+            try:
+                cache[name] = self.run(name, body, frame)
+            finally:
+                self.stack.pop()
+        return cache[name]
 
     def promoted(self, owner, index):
         """evaluate a promoted constant by interpreting its MIR body (memoised per interpreter)"""
         cache = self.__dict__.setdefault("_promoted", {})
         k = (owner, index)
         if k not in cache:
-            body = self.prog.body(owner)["promoted"][index]
+            ob = self.prog.const_bodies[owner] if owner in getattr(self.prog, "const_bodies", {}) and not self.prog.has_body(owner) \
+                else self.prog.body(owner)
+            body = ob["promoted"][index]
             frame = [Cell() for _ in body["locals"]]
             self.stack.append([owner + "::promoted[%d]" % index, 0, body["span"]])
             try:
@@ -499,6 +543,13 @@ class Interp(object):
 
     def binop(self, op, a, b, tix):
         cmpops = ("Eq", "Ne", "Lt", "Le", "Gt", "Ge", "Cmp")
+        if getattr(self.policy, "witness", False) and op not in cmpops and \
+                all((not isinstance(t, Tok)) or (t.kind == "I" and isinstance(t.val, int)) for t in (a, b)) and \
+                op.replace("WithOverflow", "").replace("Unchecked", "") in ("Shl", "Shr", "BitOr", "BitAnd", "BitXor", "Mul", "Add", "Sub") and \
+                not (op.startswith("Add") and isinstance(a, Tok) and isinstance(b, int) and 0 <= b <= 2):
+            # witness mode: integer tokens are their representatives
+            a = a.val + a.off if isinstance(a, Tok) else a
+            b = b.val + b.off if isinstance(b, Tok) else b
         if isinstance(a, Tok) or isinstance(b, Tok):
             if op in cmpops:
                 x, y = self.policy.int_cmp(self, a, b, op)
@@ -540,6 +591,14 @@ class Interp(object):
             r = x - y
         elif base == "Mul":
             r = x * y
+        elif base == "Shl":
+            if not 0 <= y < bits:
+                raise Panic("overflow", self.where(), "shift by %d" % y)
+            r = self.wrap(x << y, bits, signed)
+        elif base == "Shr":
+            if not 0 <= y < bits:
+                raise Panic("overflow", self.where(), "shift by %d" % y)
+            r = x >> y
         else:
             raise Inconclusive("binary operator %s" % op, self.where())
         lo, hi = (-(1 << (bits - 1)), (1 << (bits - 1)) - 1) if signed else (0, (1 << bits) - 1)
@@ -634,6 +693,16 @@ class Interp(object):
             raise Inconclusive("unary operator %s" % op, self.where())
         if k == "cast":
             return self.cast(rv["kind"], self.operand(frame, rv["op"]), rv["from"], rv["to"])
+        if k == "repeat":
+            import re as _re
+            m = _re.search(r"(\d+)_usize|^(\d+)$|: usize = (\d+)|Leaf\(0x([0-9a-f]+)\)", str(rv.get("n", "")))
+            if not m:
+                raise Inconclusive("array repeat count %r" % (rv.get("n"),), self.where())
+            n = int(m.group(4), 16) if m.group(4) else int(next(g for g in m.groups()[:3] if g))
+            if n > 4096:
+                raise Inconclusive("array repeat of %d elements" % n, self.where())
+            v = self.operand(frame, rv["op"])
+            return ListV([v] * n)
         raise Inconclusive("rvalue %s" % k, self.where())
 
     # ------------------------------------------------------------------ calls
@@ -656,7 +725,20 @@ class Interp(object):
             return self.call_body(clo.key, [env_ptr] + list(args))
         return self.call_body(clo.key, [clo] + list(args))
 
+    def resolve_ty(self, tix):
+        """type index with a type parameter of the generic body being interpreted replaced by the caller's argument"""
+        t = self.prog.types[tix]
+        if t.get("k") == "param":
+            for sub in reversed(getattr(self, "substs", [])[-1:]):
+                if sub and t.get("name") in sub:
+                    return sub[t["name"]]
+        return tix
+
     def call_fn(self, info, args):
+        if info.get("targs") and getattr(self, "substs", None) and self.substs[-1]:
+            rt = [self.resolve_ty(t) for t in info["targs"]]
+            if rt != info["targs"]:
+                info = dict(info, targs=rt)
         res = info.get("resolved")
         key = res["def"] if res else info["def"]
         ov = self.overrides.get(key)
@@ -673,9 +755,9 @@ class Interp(object):
                 env_ptr = f if isinstance(f, Ptr) else None
                 clo = self.load(f) if isinstance(f, Ptr) else f
                 return self.call_closure(clo, list(args[1]), env_ptr)
-            return self.call_body(key, args)
+            return self.call_body(key, args, targs=info.get("targs"))
         if not res and info.get("local") and self.prog.has_body(info["def"]):
-            return self.call_body(info["def"], args)
+            return self.call_body(info["def"], args, targs=info.get("targs"))
         return self.models.call(self, info, args)
 
     def call_key(self, key, args):
@@ -686,8 +768,16 @@ class Interp(object):
             return ov(self, args, {"def": key, "local": True})
         return self.call_body(key, args)
 
-    def call_body(self, key, args):
+    def call_body(self, key, args, targs=None):
         body = self.prog.body(key)
+        sub = None
+        names = body.get("type_params")
+        if names and targs and len(names) == len(targs):
+            sub = dict(zip(names, targs))
+        if not hasattr(self, "substs"):
+            self.substs = []
+        if sub is None and body["def_kind"] == "Closure" and self.substs:
+            sub = self.substs[-1]          # a closure sees the type parameters of the function it is written in
         if self.depth > 60:
             raise Inconclusive("call depth exceeded (recursion?) in %s" % key)
         frame = [Cell() for _ in body["locals"]]
@@ -699,11 +789,13 @@ class Interp(object):
             frame[i + 1].v = a
         self.calls.append(key)
         self.depth += 1
+        self.substs.append(sub)
         self.stack.append([key, 0, body["span"]])
         try:
             return self.run(key, body, frame)
         finally:
             self.stack.pop()
+            self.substs.pop()
             self.depth -= 1
 
     def run(self, key, body, frame):
